@@ -255,11 +255,14 @@ func run(c *core.Ctx) {
 		if c.Expired() {
 			return
 		}
-		caseNo, _ := c.Begin()
+		caseNo, run := c.Begin()
+		in := Input{s.Family, s.Desc, s.Files}
+		if c.Skip(caseNo, run, in) {
+			return
+		}
 		c.Exec()
 		c.StateN(1)
 		f, clean := check(s.Files, func(k int) { c.Edge(int64(k)); c.Validates(int64(k)) })
-		in := Input{s.Family, s.Desc, s.Files}
 		if !clean && f == nil {
 			c.Exclude()
 			c.Outcome("not-clean:outside-the-quantifier")
